@@ -229,15 +229,18 @@ def _arch_job(job):
         parser = ParserX86ATT() if isa == "x86" else ParserAArch64()
         # a synthesised memory variant the parser does not accept is no instruction (the parsers are C09/C10's
         # subject); the own rendering of an entry must parse
-        keep = []
+        keep, unparsable_own = [], []
         for l in lines:
             try:
                 parser.parse_line("\t" + l[2].strip(), 1)
                 keep.append(l)
             except Exception:  # noqa
+                # what the parser does not accept never reaches the analysis (entries with more operands than the
+                # parser takes, odd renderings): the parsers are the subject of C09/C10, the entry is noted
                 if l[0] == "own":
-                    keep.append(l)
-        res["pipeline_unparsable_variants"] = len(lines) - len(keep)
+                    unparsable_own.append(l[2].strip())
+        res["pipeline_unparsable_variants"] = len(lines) - len(keep) - len(unparsable_own)
+        res["pipeline_unparsable_own"] = unparsable_own[:20]
         lines = keep
         wd = os.path.join(tlc.WORK, "scratch")
         os.makedirs(wd, exist_ok=True)
@@ -554,7 +557,10 @@ def r3_shipped(run, tier):
             run.add_eval(res["pipeline_lines"])
             run.add_traces(res["pipeline_runs"])
             run.note("pipeline_%s" % res["arch"], {"lines": res["pipeline_lines"], "cli_runs": res["pipeline_runs"],
-                                                   "entries_lacking_data": res["pipeline_odd"]})
+                                                   "entries_lacking_data": res["pipeline_odd"],
+                                                   "own_renderings_the_parser_rejects": len(res.get("pipeline_unparsable_own") or [])})
+            if res.get("pipeline_unparsable_own"):
+                run.divergence("own-rendering-not-parsable", {"arch": res["arch"], "examples": res["pipeline_unparsable_own"][:5]})
             for rec in res["pipeline"]:
                 first = rec["lines"][0]
                 what = "own rendering" if first[0] == "own" else "memory variant (operand %s)" % first[0][3:]
